@@ -79,6 +79,9 @@ func aggregate(prop string, cfg PropConfig, reports []*FuncReport, known []Known
 		}
 		res.Vacuity = append(res.Vacuity, rep.Vacuity...)
 		for _, o := range rep.obligs {
+			if !cfg.selects(o) {
+				continue
+			}
 			seenOblig[o.Name] = true
 			status, worst := obligStatus(o)
 			var solvers []string
@@ -334,4 +337,28 @@ func cmdReplay(argv []string) int {
 		fmt.Println("replay output:\n" + r)
 	}
 	return 0
+}
+
+// selects: does the obligation belong to the property (see PropConfig.Labels)?
+func (cfg PropConfig) selects(o *Oblig) bool {
+	labels, ok := cfg.Labels[o.Func]
+	if !ok {
+		return true
+	}
+	switch o.Kind {
+	case "ensures", "on-return", "call-site", "loop-backedge":
+	default:
+		return true
+	}
+	name := strings.TrimSuffix(strings.TrimSuffix(o.Name, "@known-region"), "@elsewhere")
+	i := strings.LastIndex(name, ":")
+	if i < 0 {
+		return true
+	}
+	for _, l := range labels {
+		if l == name[i+1:] {
+			return true
+		}
+	}
+	return false
 }
